@@ -21,6 +21,8 @@ type mnode struct {
 	kids []string // child names in listing order (dirs)
 }
 
+var bigTarget = []byte(strings.Repeat("B", 101)) // a symlink target above the (concrete) size limit of 100 bytes
+
 type faultKey struct {
 	op string
 	p  string
@@ -69,7 +71,7 @@ func (i minfo) Mode() fs.FileMode {
 	switch i.n.kind {
 	case "dir":
 		return fs.ModeDir | 0755
-	case "link":
+	case "link", "linkbig":
 		return fs.ModeSymlink | 0777
 	case "special":
 		return fs.ModeNamedPipe | 0644
@@ -86,6 +88,9 @@ func (i minfo) Info() (fs.FileInfo, error) { return i, nil }
 func followed(n *mnode) *mnode {
 	if n.kind == "link" {
 		return &mnode{kind: "file", data: []byte("LT")}
+	}
+	if n.kind == "linkbig" {
+		return &mnode{kind: "file", data: bigTarget}
 	}
 	return n
 }
